@@ -379,7 +379,7 @@ def run(ctx):
 
     rng = random.Random(ctx.seed * 1000003 + 8)
     g = AggGen(rng)
-    n = 1300 if ctx.quick else 8000
+    n = 1100 if ctx.quick else 8000
     per_file = 85
     files, body, recs, notes = [], [], [], []
     n_fail = 0
